@@ -108,15 +108,19 @@ class World:
         rng = np.random.default_rng(seed)
         m = m or n
         self.rng = rng
+        # one world in three holds every caller array in the NON-native byte order (what astropy.io.fits hands back on a
+        # little-endian machine): the same values, and just as much the caller's property
+        self.other_endian = seed % 3 == 2
+        E = gen.other_endian if self.other_endian else (lambda a: a)
         yy, xx = np.mgrid[0:n, 0:m]
         disc = ((yy - n / 2 + 0.5) ** 2 + (xx - m / 2 + 0.5) ** 2) <= (min(n, m) / 2 - 0.5) ** 2
-        self.amp = rng.uniform(0.5, 1.5, size=(n, m)) * disc
-        self.mask = disc.astype(float) * 3.0                     # non-binary mask: planes binarise their own copy
-        self.imask = disc.astype(int)
+        self.amp = E(rng.uniform(0.5, 1.5, size=(n, m)) * disc)
+        self.mask = E(disc.astype(float) * 3.0)                    # non-binary mask: planes binarise their own copy
+        self.imask = E(disc.astype(int))
         self.wl = 1e-6
-        self.opd = (rng.normal(size=(n, m)) * 0.05 + 0.2 * (yy - n / 2) / n - 0.1 * (xx - m / 2) / m) * self.wl * disc
+        self.opd = E((rng.normal(size=(n, m)) * 0.05 + 0.2 * (yy - n / 2) / n - 0.1 * (xx - m / 2) / m) * self.wl * disc)
         labels = np.where(xx < m // 2, 1, 2) * disc
-        self.cube = np.stack([(labels == 1).astype(float), (labels == 2).astype(float)])
+        self.cube = E(np.stack([(labels == 1).astype(float), (labels == 2).astype(float)]))
         # the sampling differs from case to case so that caches keyed on it start cold in every case
         self.dx, self.z = 1e-3 * (1 + dxk * 1e-6), 2.0
         self.du = 0.5 / max(n, m) * self.wl * self.z / self.dx
@@ -124,7 +128,7 @@ class World:
         self.seg = lentil.Pupil(amplitude=self.amp, opd=self.opd, mask=self.cube, pixelscale=self.dx, focal_length=self.z)
         rect = np.zeros((n, m))
         rect[1:n - 2, m // 2 - 1:] = 1.0                                 # overlaps the disc only partially
-        self.rect = rect
+        self.rect = E(rect)
         self.pupil2 = lentil.Pupil(amplitude=rect * 0.8, opd=self.opd * 0.7, mask=rect, pixelscale=self.dx, focal_length=self.z)
         self.wave0 = lentil.Wavefront(self.wl)                          # pristine: never used while building the world
         self.wpupil = lentil.Wavefront(self.wl) * self.pupil
@@ -132,23 +136,24 @@ class World:
         self.wfit = lentil.Wavefront(self.wl) * self.seg.fit_tilt(inplace=False)
         self.out_mask = (rng.uniform(size=(6, 6)) < 0.6).astype(int)
         self.out_mask[2, 3] = 1
-        self.f = rng.normal(size=(n, m)) + 1j * rng.normal(size=(n, m))
-        self.frame = rng.uniform(-50, 5000, size=(6, 8))
-        self.iframe = rng.integers(0, 4000, size=(6, 8))
-        self.cube_img = rng.uniform(0, 100, size=(3, 4, 6))
-        self.wave_nm = np.array([500.0, 600.0, 700.0])
+        self.out_mask = E(self.out_mask)
+        self.f = E(rng.normal(size=(n, m)) + 1j * rng.normal(size=(n, m)))
+        self.frame = E(rng.uniform(-50, 5000, size=(6, 8)))
+        self.iframe = E(rng.integers(0, 4000, size=(6, 8)))
+        self.cube_img = E(rng.uniform(0, 100, size=(3, 4, 6)))
+        self.wave_nm = E(np.array([500.0, 600.0, 700.0]))
         self.s_um = Spectrum(np.linspace(0.3, 1.0, 9), rng.uniform(0.1, 1, size=9), waveunit="um")
         self.s_nm = Spectrum(np.linspace(350.0, 900.0, 12), rng.uniform(0.1, 1, size=12), waveunit="nm")
         self.s_dens = Spectrum(np.linspace(4000.0, 9000.0, 7), rng.uniform(1, 2, size=7), waveunit="angstrom", valueunit="photlam")
-        self.gain = np.array([1e-9, 0.5])
-        self.pgain = rng.uniform(0.1, 1.0, size=(6, 8))
-        self.img = rng.uniform(0, 1, size=(5, 7))
+        self.gain = E(np.array([1e-9, 0.5]))
+        self.pgain = E(rng.uniform(0.1, 1.0, size=(6, 8)))
+        self.img = E(rng.uniform(0, 1, size=(5, 7)))
         self.rho, self.theta = lentil.zernike_coordinates(self.imask)
-        self.coeffs = rng.normal(size=5)
+        self.coeffs = E(rng.normal(size=5))
         self.modes = np.array([4, 2, 6])
         # a second-order grism shared by all calls: lambda = 5e-3 d^2 + 1e-4 d + 650 nm (no root below 150 nm)
         self.dt2 = lentil.DispersiveTilt(trace=[2.0, 0.5, 0.0], dispersion=[5e-3, 1e-4, 6.5e-7])
-        self.fbig = rng.normal(size=(96, 101)) + 1j * rng.normal(size=(96, 101))      # a frame of ~1e4 samples
+        self.fbig = E(rng.normal(size=(96, 101)) + 1j * rng.normal(size=(96, 101)))     # a frame of ~1e4 samples
 
     def watched(self):
         return [self.amp, self.mask, self.imask, self.opd, self.cube, self.pupil, self.seg, self.wave0, self.wpupil,
